@@ -338,7 +338,10 @@ func (c08) Generate(r *sim.Rand, tier string) *sim.Scenario {
 		default:
 			id := live[r.Intn(len(live))]
 			st := sim.Step{C: c, Op: "bad", In: []int{id}, Out: -1}
-			switch r.Intn(3) {
+			switch r.Intn(6) {
+			case 3, 4, 5:
+				// the shared catalogue of rejected calls, built around this tensor
+				st.Tag, st.N = pickBad(r, shadow.T[id].Shape())
 			case 0:
 				st.Tag = "backprop-nil"
 			case 1:
@@ -693,8 +696,20 @@ func (prop c08) Execute(sc *sim.Scenario) *sim.Outcome {
 					got, err = x.Broadcast(append(cpI(shp), 0))
 				}
 			default:
-				out.Discard = "malformed"
-				return out
+				if badIndexOf(st.Tag) < 0 {
+					out.Discard = "malformed"
+					return out
+				}
+				oracle, msg, _, _ := badVerdict(st.Tag, st.N, x)
+				if oracle == "harness" {
+					out.Discard = "malformed"
+					return out
+				}
+				if oracle != "" {
+					out.Fail(oracle, "%s: %s", where, msg)
+					return fin()
+				}
+				err = fmt.Errorf("rejected")
 			}
 			sim.Pause()
 			if err != nil && err.Error() == "skipped" {
